@@ -413,7 +413,7 @@ type c11Wire struct {
 }
 
 func genC11Wire(rt *rapid.T) c11Wire {
-	sc := c11Wire{IL: rapid.Bool().Draw(rt, "il"), RBuf: rapid.SampledFrom([]int{1500, 3000, 8000, 20000, 65536}).Draw(rt, "rbuf")}
+	sc := c11Wire{IL: rapid.Bool().Draw(rt, "il"), RBuf: rapid.SampledFrom([]int{1500, 3000, 8000, 20000, 65536, 65536, 300000, 1 << 20}).Draw(rt, "rbuf")}
 	w := int(vfWindowFor(sc.RBuf))
 	sc.TSN = genTSN(rt, "tsn", uint32(w))
 	if rapid.IntRange(0, 2).Draw(rt, "seqwrap") == 0 {
